@@ -243,6 +243,41 @@ func TestVerifFeeMarketRows(t *testing.T) {
 		}
 	}
 
+	// (2) intermediate quotient beyond 64 bits while the result still fits: price*(usage-target)/target in
+	// [2^64, 2^64*denominator); usage enters as the parent's consumption (empty window, 1 s elapsed)
+	{
+		type q struct{ price, target, ratio, denom uint64 } // usage = target*(ratio+1)
+		fam := [][fees.FeeDimensions]q{
+			{{1 << 62, 1000, 16, 48}, {1 << 60, 1 << 20, 100, 48}, {1 << 62, 7, 8, 3}, {1 << 50, 10, 1 << 15, 1000}, {1 << 61, 3, 9, 2}},
+			// exactly 2^64; just below 2^64*denom; exactly 2^64*denom (saturates legitimately); 5*2^64 / 7; 2^64+ / huge denominator
+			{{1 << 62, 1000, 4, 2}, {1 << 40, 10, 47 << 24, 48}, {1 << 40, 10, 48 << 24, 48}, {1 << 32, 3, 5 << 32, 7}, {1 << 63, 1 << 10, 3, 1 << 40}},
+			{{1<<62 + 12345, 999, 17, 5}, {1<<58 + 1, 12, 77, 11}, {1 << 33, 1, 1 << 33, 1 << 20}, {1<<64 - 1, 1 << 30, 2, 3}, {1 << 44, 1 << 44, 1 << 21, 1 << 10}},
+		}
+		for _, dims := range fam {
+			var p, l [fees.FeeDimensions]uint64
+			var win [fees.FeeDimensions][window.WindowSize]uint64
+			r := &rules{}
+			for d, x := range dims {
+				p[d], l[d] = x.price, x.target*(x.ratio+1)
+				r.target[d], r.denom[d], r.min[d] = x.target, x.denom, 1
+			}
+			emit("quotient", ifees.NewManager(encodeState(500, p, win, l)), p, l, win, 500, 501_250, r)
+		}
+		// decrease side with targets at the top of the word (the quotient never exceeds the price there)
+		{
+			var p, l [fees.FeeDimensions]uint64
+			var win [fees.FeeDimensions][window.WindowSize]uint64
+			r := &rules{}
+			M := uint64(math.MaxUint64)
+			p = [fees.FeeDimensions]uint64{1 << 63, M, 1<<63 - 1, 1 << 62, M - 1}
+			l = [fees.FeeDimensions]uint64{5, 1, 1 << 62, 0, 1 << 63}
+			r.target = fees.Dimensions{1 << 63, M, M - 1, M, 1<<63 + 1}
+			r.denom = fees.Dimensions{2, 48, 3, 1 << 40, 7}
+			r.min = fees.Dimensions{1, 1, 1, 1, 1}
+			emit("quotient", ifees.NewManager(encodeState(500, p, win, l)), p, l, win, 500, 503_000, r)
+		}
+	}
+
 	for c := 0; c < calls; {
 		small := rng.Intn(4) == 0 || c == 0 // the first seeded chain is always small-valued (TLC half of the binding)
 		cls := "wide"
